@@ -107,14 +107,14 @@ theorem decWires_enc [DecidableEq F] (K : Consts F) (nodes : List Node) (ws : Li
   | nil => rfl
   | cons w ws ih =>
     have hw := h w List.mem_cons_self
-    simp only [wireOK, Bool.and_eq_true, bne_iff_ne, ne_eq, decide_eq_true_eq, Bool.not_eq_true',
+    simp only [wireOK, Bool.and_eq_true, decide_eq_true_eq, Bool.not_eq_true',
       Option.isNone_iff_eq_none] at hw
-    obtain ⟨⟨⟨⟨hne, hmem⟩, hone⟩, hrec⟩, htr⟩ := hw
+    obtain ⟨⟨⟨hmem, hone⟩, hrec⟩, htr⟩ := hw
     cases w with
     | mk node wt recur trait =>
-      simp only at hne hmem hone hrec htr
+      simp only at hmem hone hrec htr
       subst hone hrec htr
-      simp [encWires, decWires, get, hne, hmem, ih (i + 1) (fun w' hw' => h w' (List.mem_cons_of_mem _ hw'))]
+      simp [encWires, decWires, get, hmem, ih (i + 1) (fun w' hw' => h w' (List.mem_cons_of_mem _ hw'))]
 
 theorem decModule_enc [DecidableEq F] (C : Codec F) (hA : ActsRoundTrip C) (K : Consts F) (traits : List (Trait F))
     (nodes : List Node) (m : Module F) (h : moduleOK C K traits nodes m = true) (hst : K.yf m.mnum = m.mnum) :
